@@ -1388,3 +1388,146 @@ def misc_helper_checks(rng, n=300):
     except TypeError:
         pass
     return out
+
+
+# ====================================================================== LRUCache under threads
+def lrumt_gen(rng):
+    """small programs: 2 threads x <=3 ops, or 3 threads x 1 op (the Lean driver explores every
+    interleaving of the same programs)"""
+    cap = rng.choice([1, 1, 2, 2, 3])
+    num, den = rng.choice([(0, 1), (0, 1), (1, 2), (1, 1)])
+    nkeys = cap + 2
+    val = [10]
+
+    def op():
+        w = rng.random()
+        if w < 0.55:
+            val[0] += 1
+            return ["set", rng.randrange(nkeys), val[0]]
+        if w < 0.68:
+            return ["del", rng.randrange(nkeys)]
+        return ["get", rng.randrange(nkeys)]
+
+    if rng.random() < 0.2:
+        progs = [[op()] for _ in range(3)]
+    else:
+        progs = [[op() for _ in range(rng.randint(1, 3))] for _ in range(2)]
+    if not any(o[0] == "set" for p in progs for o in p):
+        progs[0][0] = ["set", 0, 99]
+    return {"cap": cap, "num": num, "den": den}, progs
+
+
+def lrumt_directed():
+    """hand-picked races: a pruning writer against a deleter / an overwriter / a reader of the
+    keys being pruned (run under many schedules each)"""
+    return [
+        ({"cap": 1, "num": 0, "den": 1}, [[["set", 0, 11], ["set", 1, 12]], [["del", 0]]]),
+        ({"cap": 1, "num": 0, "den": 1}, [[["set", 0, 11], ["set", 1, 12]], [["del", 0], ["get", 1]]]),
+        ({"cap": 2, "num": 0, "den": 1}, [[["set", 0, 11], ["set", 1, 12], ["set", 2, 13]], [["del", 0], ["del", 1]]]),
+        ({"cap": 1, "num": 0, "den": 1}, [[["set", 0, 11], ["set", 1, 12]], [["get", 0], ["set", 0, 13]]]),
+        ({"cap": 1, "num": 0, "den": 1}, [[["set", 0, 11], ["set", 1, 12]], [["set", 2, 13], ["get", 0]]]),
+        ({"cap": 2, "num": 1, "den": 2}, [[["set", 0, 11], ["set", 1, 12], ["set", 2, 13]], [["set", 3, 14], ["get", 0], ["del", 1]]]),
+    ]
+
+
+def lrumt_run(ns, cfg, progs, strat):
+    """run the programs on the real LRUCache, one greenlet per thread, under the cooperative
+    scheduler (a switch is possible before every source line of util/_collections.py and at the
+    try-lock / release of the cache mutex).  Returns dict(status, rets, data, failed, oracle)."""
+    import random as _random
+
+    from harness import lib_sched
+    from sqlalchemy.util import _collections as C
+
+    if strat[0] == "rand":
+        chooser = lib_sched.RandomChooser(_random.Random(strat[1]), strat[2], 0.0)
+    elif strat[0] == "pct":
+        chooser = lib_sched.PCTChooser(_random.Random(strat[1]), len(progs), depth=strat[2], est_steps=40 * len(progs))
+    else:
+        chooser = lib_sched.ReplayChooser(strat[1])
+    sched = lib_sched.Sched(chooser, trace_files=("util/_collections.py",), max_steps=20000)
+    old = C.threading
+    C.threading = sched.threading_shim()
+    try:
+        cache = ns.LRUCache(cfg["cap"], threshold=cfg["num"] / cfg["den"])
+    finally:
+        C.threading = old
+    failed = [0]
+    lock = cache._mutex
+    real_acquire = lock.acquire
+
+    def counting_acquire(blocking=True, timeout=-1):
+        ok = real_acquire(blocking, timeout)
+        if not ok:
+            failed[0] += 1
+        return ok
+
+    lock.acquire = counting_acquire
+    rets = [[] for _ in progs]
+    errors = []
+
+    def mk(i, prog):
+        def fn(w):
+            for op in prog:
+                try:
+                    if op[0] == "get":
+                        rets[i].append((op[1], cache.get(op[1])))
+                    elif op[0] == "del":
+                        try:
+                            del cache[op[1]]
+                        except KeyError:
+                            pass  # absent (never stored, evicted or deleted by another thread): fine
+                    else:
+                        cache[op[1]] = op[2]
+                except lib_sched.SchedKilled:
+                    raise
+                except Exception as e:  # noqa: BLE001
+                    errors.append("%s in thread %d op %s" % (type(e).__name__, i, op))
+
+        return fn
+
+    for i, p in enumerate(progs):
+        sched.spawn(mk(i, p))
+    status = sched.run()
+    data = [(k, item[1]) for k, item in cache._data.items()]
+    bad_item = [k for k, item in cache._data.items() if item[0] != k]
+    # ---- direct oracle (the property itself, any interleaving)
+    stored = {}
+    for p in progs:
+        for op in p:
+            if op[0] == "set":
+                stored.setdefault(op[1], set()).add(op[2])
+    oracle = None
+    if status != "done":
+        oracle = ("lrucache-threads-does-not-finish", "scheduler result %s" % status)
+    elif errors:
+        oracle = ("lrucache-threads-exception", "; ".join(errors))
+    elif bad_item:
+        oracle = ("lrucache-threads-entry-under-wrong-key", "keys %s" % bad_item)
+    else:
+        for i, rs in enumerate(rets):
+            for k, v in rs:
+                if v is not None and v not in stored.get(k, ()):
+                    oracle = ("lrucache-threads-get-returns-value-not-stored-under-key", "thread %d get(%d) -> %r, stored %s" % (i, k, v, sorted(stored.get(k, ()))))
+        for k, v in data:
+            if v not in stored.get(k, ()):
+                oracle = oracle or ("lrucache-threads-holds-value-not-stored-under-key", "key %d holds %r" % (k, v))
+        if oracle is None and lock.locked():
+            oracle = ("lrucache-threads-mutex-left-locked", "")
+        # size: len <= bound + failed try-locks (lru_mt_quiescent_bound; `failed` over-counts, which is safe)
+        if oracle is None and (len(data) - failed[0]) * cfg["den"] > cfg["cap"] * cfg["den"] + cfg["cap"] * cfg["num"]:
+            oracle = ("lrucache-threads-size-over-bound", "len %d, %d failed try-locks, capacity %d threshold %d/%d" % (len(data), failed[0], cfg["cap"], cfg["num"], cfg["den"]))
+    return {"status": status, "rets": rets, "data": data, "failed": failed[0], "oracle": oracle,
+            "choices": list(chooser.choices), "steps": sched.steps}
+
+
+def lrumt_request(cfg, progs, rets, data):
+    def prog_tok(p):
+        return ",".join(("g%d" % o[1]) if o[0] == "get" else ("d%d" % o[1]) if o[0] == "del" else "s%d.%d" % (o[1], o[2]) for o in p) or "-"
+
+    def rets_tok(rs):
+        return ",".join("%d=%s" % (k, "N" if v is None else v) for k, v in rs) or "-"
+
+    return "lrumt reach %d %d %d %s %s %s" % (
+        cfg["cap"], cfg["num"], cfg["den"], "|".join(prog_tok(p) for p in progs),
+        "|".join(rets_tok(r) for r in rets), ",".join("%d=%d" % kv for kv in data) or "-")
